@@ -39,11 +39,25 @@ func returnedBytes(fn *ssa.Function) (buf ssa.Value, extra []ssa.Value, direct s
 		if core.IsNilConst(v) {
 			continue
 		}
-		// append(buf.Bytes(), data...)
-		if call, ok := v.(*ssa.Call); ok {
-			if bi, ok := call.Call.Value.(*ssa.Builtin); ok && bi.Name() == "append" {
-				extra = append(extra, call.Call.Args[1])
-				v = core.Canon(call.Call.Args[0])
+		// append(buf.Bytes(), data...), or a chain of appends onto an empty slice made here:
+		// out := make([]byte, 0, n); out = append(out, header...); out = append(out, data...)
+		var pieces []ssa.Value
+		for depth := 0; depth < 6; depth++ {
+			call, ok := v.(*ssa.Call)
+			if !ok {
+				break
+			}
+			bi, ok := call.Call.Value.(*ssa.Builtin)
+			if !ok || bi.Name() != "append" || len(call.Call.Args) != 2 {
+				break
+			}
+			pieces = append([]ssa.Value{call.Call.Args[1]}, pieces...)
+			v = core.Canon(call.Call.Args[0])
+		}
+		extra = append(extra, pieces...)
+		if mk, ok := v.(*ssa.MakeSlice); ok && len(pieces) > 0 {
+			if k, isK := core.ConstInt(mk.Len); isK && k == 0 {
+				continue // everything returned was appended: the pieces are the result
 			}
 		}
 		if call, ok := v.(*ssa.Call); ok {
@@ -172,6 +186,10 @@ func ruleReadersReturnWhatTheyConsume(c *core.Ctx, rule string) {
 			emitted = flatten(emitted)
 		}
 		for _, e := range extra {
+			if pre, ok := helperEmitted(c, e); ok {
+				emitted = append(emitted, pre...) // bytes assembled by a helper of the repository
+				continue
+			}
 			emitted = append(emitted, tok{Kind: "prim", Name: "Bytes", Dir: "write", Val: e})
 		}
 		if cv, isConv := direct.(*ssa.Convert); buf == nil && direct != nil && isConv {
